@@ -243,3 +243,8 @@ Proof. vm_compute. reflexivity. Qed.
 Example flat_scraped_keys_are_strings :
   map (fun s => map fst (s_kw s)) (map (reloaded (sorted_walk t_flat) true) rows2) = [[KStr "b"; KStr "a"]; [KStr "b"; KStr "a"]].
 Proof. vm_compute. reflexivity. Qed.
+
+Example json_history_latest :
+  get_json "samples_summary" (run_json [("samples_summary", 1); ("samples_info", 2); ("samples_summary", 3); ("samples_info", 4)]) = Some 3
+  /\ json_count "samples_summary" (run_json [("samples_summary", 1); ("samples_info", 2); ("samples_summary", 3)]) = 1.
+Proof. vm_compute. split; reflexivity. Qed.
